@@ -235,7 +235,7 @@ def problem(draw, n_basis_range=(2, 4), independent=True, max_train=5):
         nan_pairs = sorted({live[q] for q in pos})
     usable = len(live) - len(nan_pairs)     # distinct non-missing pairs among the selected conditions
     if independent:
-        k = max(2, min(k_want, usable - 3))
+        k = max(min(2, k_want), min(k_want, usable - 3))
     else:
         k = k_want
     # basis: positive entries plus a spike on a distinct usable pair (independence by construction)
@@ -432,7 +432,8 @@ def step_budget(sig, budget=20000):
 
 @st.composite
 def regress_case(draw):
-    case = draw(problem())
+    # (a weighted model with a single basis RDM is a valid model: only the sign of its weight is fitted)
+    case = draw(problem(n_basis_range=(1, 4)))
     case['normalize'] = draw(st.booleans())
     # the criteria are scale-free: basis RDMs and training RDMs in small or large units (exact
     # power-of-two rescaling) have the same optimum up to the scale of the weights
